@@ -75,16 +75,24 @@ Proof.
 Qed.
 
 (* the state handed out by rdm_open *)
+Lemma rdm_open_opened : forall f st, rdm_open f = RdmOpened st ->
+  exists c c1, rp_scan f = inr c /\ rp_scan_fsr_sample_id c = (c1, 0) /\ st = rdm_st0 c1.
+Proof.
+  intros f st H. unfold rdm_open in H. destruct (rp_scan f) as [[c rc] | c]; [discriminate |].
+  destruct (fm_tag (wm_ck_hdr (rp_cur (rp_io_ c))) =? JLS_TAG_END); [| discriminate].
+  destruct (rp_scan_fsr_sample_id c) as [c1 rc1] eqn:E2. destruct (rc1 =? 0) eqn:E; [| discriminate].
+  apply N.eqb_eq in E. subst rc1. exists c, c1. split; [reflexivity |]. split; [exact E2 |]. congruence.
+Qed.
+
 Theorem rdm_open_inv : forall f st, rdm_open f = RdmOpened st ->
   rdm_inv f st /\ rdm_tr st = [] /\ rdm_stale st = false.
 Proof.
-  intros f st H. unfold rdm_open in H. destruct (rp_scan f) as [[c rc] | c] eqn:Es; [discriminate |].
-  destruct (fm_tag (wm_ck_hdr (rp_cur (rp_io_ c))) =? JLS_TAG_END); [| discriminate].
+  intros f st H. destruct (rdm_open_opened f st H) as (c & c1 & Es & Esid & Hst). subst st.
   destruct (rdm_scan_inr_inv f c Es) as [Hf Hi].
   pose proof (rdm_scan_sid_loop_inv (tl rp_signal_ids) c Hi) as [A B].
-  unfold rp_scan_fsr_sample_id in H. destruct (rp_scan_sid_loop (tl rp_signal_ids) c) as [c1 rc1]. cbn [fst] in A, B.
-  destruct (rc1 =? 0); [| discriminate]. inversion H; subst st.
-  split; [| split; reflexivity]. split; [change (rp_file (rp_io_ c1) = f); congruence | split; [exact B | constructor]].
+  change (rp_scan_sid_loop (tl rp_signal_ids) c) with (rp_scan_fsr_sample_id c) in A, B. rewrite Esid in A, B. cbn [fst] in A, B.
+  split; [| split; reflexivity]. split; [| split; [exact B | constructor]].
+  change (rp_file (rp_io_ c1) = f). congruence.
 Qed.
 
 (* rdm_open is jls_rd_open as modelled by RepairModel.rp_open, on the files that need no repair *)
